@@ -399,13 +399,23 @@ def t_dirs():
 		fixtures.write_genome_db(os.path.join(src, 'g.gdb'), TAXA, gspecs)
 		fixtures.write_sigfile(os.path.join(src, 's.gs'), ks, SIGS[:2], ids=[g['key'] for g in gspecs], id_attr='key')
 		# hidden (dot-) files and other odd names carrying the same extensions, each added alone to every subset of the visible items
-		odd = [None, '.a2.gdb', '._b.db', '.c-backup.gs', '._d.h5', 'e.gdb.bak', 'f.GS', 'g h.gs', '[x].gdb', '.DS_Store']
+		odd = [None, '.a2.gdb', '._b.db', '.c-backup.gs', '._d.h5', 'e.gdb.bak', 'f.GS', 'g h.gs', '[x].gdb', '.DS_Store',
+		       # symbolic links: to a genome / signature file outside the directory, and a second name for a file of the directory itself
+		       'ext-link.gdb', 'ext-link.h5', 'current.gdb->a.gdb', 'current.h5->c.gs']
 		for mask, extra_item in itertools.product(range(64), odd):
 			present = [it for b, it in enumerate(items) if mask >> b & 1] + ([extra_item] if extra_item else [])
 			dd = os.path.join(d, f'dir{mask}-{odd.index(extra_item)}')
 			os.makedirs(dd)
+			if extra_item and '->' in extra_item and extra_item.split('->')[1] not in present:
+				continue          # a second name needs the first one
 			for it in present:
-				if it.endswith(('.gdb', '.db')):
+				if '->' in it:
+					os.symlink(it.split('->')[1], os.path.join(dd, it.split('->')[0]))
+				elif it == 'ext-link.gdb':
+					os.symlink(os.path.join(src, 'g.gdb'), os.path.join(dd, it))
+				elif it == 'ext-link.h5':
+					os.symlink(os.path.join(src, 's.gs'), os.path.join(dd, it))
+				elif it.endswith(('.gdb', '.db')):
 					shutil.copy(os.path.join(src, 'g.gdb'), os.path.join(dd, it))
 				elif it.endswith(('.gs', '.h5')):
 					shutil.copy(os.path.join(src, 's.gs'), os.path.join(dd, it))
@@ -415,8 +425,9 @@ def t_dirs():
 					os.makedirs(os.path.join(dd, it))
 					shutil.copy(os.path.join(src, 'g.gdb'), os.path.join(dd, it, 'z.gdb'))
 					shutil.copy(os.path.join(src, 's.gs'), os.path.join(dd, it, 'z.gs'))
-			ngen = sum(1 for it in present if it.endswith(('.gdb', '.db')))
-			nsig = sum(1 for it in present if it.endswith(('.gs', '.h5')))
+			names = [it.split('->')[0] for it in present]
+			ngen = sum(1 for it in names if it.endswith(('.gdb', '.db')))
+			nsig = sum(1 for it in names if it.endswith(('.gs', '.h5')))
 			should = ngen == 1 and nsig == 1
 			sh.evals += 1
 			try:
